@@ -484,7 +484,10 @@ pub fn run(cfg: &Config, families: &[Box<dyn Family>]) -> Outcome {
                 let done = &done;
                 let results = &results;
                 let budget_hit = &budget_hit;
-                s.spawn(move || {
+                // a generous stack: the code under test recurses, and a harness thread must never
+                // overflow where a user's main thread (8 MiB) would not
+                let builder = std::thread::Builder::new().stack_size(256 << 20).name(format!("worker-{}", worker));
+                let _ = builder.spawn_scoped(s, move || {
                     let w = (worker % SLOTS) * WORDS;
                     let mark = |idx: u64| {
                         slots[w + 1].store(idx, Ordering::Relaxed);
